@@ -106,6 +106,9 @@ BIN_AST = {ast.Add: "+", ast.Sub: "-", ast.Mult: "*", ast.Div: "/", ast.FloorDiv
 def mk_cmp(op, l, r):
     if op in CMP_FLIP:
         return ("cmp", CMP_FLIP[op], r, l)
+    if op in ("is", "isnot") and l[0] == "const" and r[0] == "const" and (l[1] is None or r[1] is None):
+        same = l[1] is None and r[1] is None
+        return ("const", same if op == "is" else not same)
     if op in ("in", "notin") and l[0] == "const":
         # membership of a constant in a display of constants (a literal table of accepted values) is decided
         keys = None
@@ -1379,6 +1382,11 @@ class Evaluator:
             return self.env[n.id]
         s = self.index.resolve(self.module, n.id)
         if s is not None:
+            if s.kind == "func" and s.module is not None and s.module is not self.module and ":" in s.qual \
+                    and n.id in PINNED.get(self.module.name, ()) and n.id != s.qual.split(":")[1]:
+                # a reference function of this module that now lives elsewhere under another name and is imported back
+                # under its old one (`from .x import f as _f`): still the reference function
+                return ("global", f"{self.module.name}:{n.id}", "func")
             return self._new_constant(s) or sym_term(s)
         if n.id in BUILTINS or n.id in ("True", "False", "None"):
             return ("builtin", n.id)
@@ -1392,6 +1400,8 @@ class Evaluator:
         modname, name = s.qual.split(":")
         if name in PINNED_ASSIGNS.get(modname, ()) or len(s.module.defs.get(name, [])) != 1:
             return None
+        if self.index.canonical_qual("assign", s.qual) != s.qual:
+            return None  # a reference table / constant that moved to another module: the rules know it by name
         d = s.module.defs[name][0]
         node = d.value if isinstance(d, (ast.Assign, ast.AnnAssign)) else None
         if isinstance(node, ast.Dict) and node.keys and all(isinstance(k, ast.Constant) for k in node.keys) \
@@ -2452,6 +2462,12 @@ class Evaluator:
             return None
         if fname in PINNED.get(modname, ()) or f"{modname}:{fname}" in OPAQUE:
             return None
+        if "." in fname:
+            # a method of a reference class that moved to another module is still that reference method
+            from .index import Index as _Ix
+            cq_ = _Ix.canonical_qual(None, "class", f"{modname}:{fname.split('.')[0]}")
+            if cq_.split(":")[0] != modname and fname in PINNED.get(cq_.split(":")[0], ()):
+                return None
         decos = [ast.unparse(d) for d in node.decorator_list]
         if any(d not in ("staticmethod", "classmethod") for d in decos):
             return None
@@ -3101,6 +3117,10 @@ def sym_term(s: Sym) -> tuple:
         homes = _HOME.get(name, [])
         if len(homes) == 1 and homes[0] != mod and name not in PINNED.get(mod, ()):
             return ("global", f"{homes[0]}:{name}", s.kind)
+    if s.kind in ("class", "assign") and ":" in s.qual:
+        # likewise a class / a module-level table that moved
+        from .index import Index as _Ix
+        return ("global", _Ix.canonical_qual(None, s.kind, s.qual), s.kind)
     return ("global", s.qual, s.kind)
 
 
@@ -3143,7 +3163,52 @@ class Summaries:
             raise AnalysisError(f"recursion while summarising {qual}", site=qual)
         s = self._fix_new_parameters(qual, s)
         self._cache[qual] = s
+        self._drop_new_default_keywords(s)
         return s
+
+    def _new_param_defaults(self, callee_qual: str) -> Dict[str, tuple]:
+        """{new optional parameter of a reference function: its default term}"""
+        ref = (Summaries._DECLS or {"functions": {}})["functions"].get(callee_qual)
+        if ref is None or ":" not in callee_qual:
+            return {}
+        modname, fname = callee_qual.split(":")
+        try:
+            m, fn = self.index.need_func(modname, fname)
+        except AnalysisError:
+            return {}
+        known = set(ref["pos"]) | set(ref["kwonly"])
+        a = fn.args
+        out = {}
+        allp = list(a.posonlyargs) + list(a.args)
+        for p_, d_ in list(zip(allp[len(allp) - len(a.defaults):], a.defaults)) + [(p_, d_) for p_, d_ in zip(a.kwonlyargs, a.kw_defaults) if d_ is not None]:
+            if p_.arg not in known and isinstance(d_, ast.Constant):
+                out[p_.arg] = ("const", d_.value)
+        return out
+
+    def _drop_new_default_keywords(self, s: Summary):
+        """`f(x, new_option=<its default>)`: a keyword that names an option the reference function did not have and passes
+        that option's default is the call the reference made"""
+        if Summaries._DECLS is None:
+            self._fix_new_parameters("", s)
+
+        def clean(t):
+            if not isinstance(t, tuple) or not t:
+                return t
+            t = tuple(clean(c) if isinstance(c, tuple) else c for c in t)
+            if isinstance(t[0], str) and t[0] == "call" and len(t) == 4 and t[3] and t[1][0] == "global" and t[1][2] == "func":
+                nd = self._new_param_defaults(t[1][1])
+                if nd:
+                    kws = tuple((k, v) for k, v in t[3] if not (k in nd and nd[k] == v))
+                    if kws != t[3]:
+                        return ("call", t[1], t[2], kws)
+            return t
+
+        for e in s.events:
+            if any(x[0] == "call" and len(x) == 4 and x[3] for x in walk(e.term)):
+                e.term = clean(e.term)
+            e.live = clean(e.live) if isinstance(e.live, tuple) else e.live
+        for li in s.loops.values():
+            li.iter = clean(li.iter)
 
     _DECLS = None
 
@@ -3280,6 +3345,13 @@ def fold_sub(t):
     if not isinstance(t, tuple) or not t:
         return t
     t = tuple(fold_sub(c) if isinstance(c, tuple) else c for c in t)
+    if t and t[0] == "cmp" and t[1] in ("is", "isnot") and len(t) == 4 and t[2][0] == "const" and t[3][0] == "const" \
+            and (t[2][1] is None or t[3][1] is None):
+        # `None is None` after a default was substituted for a parameter
+        same = t[2][1] is None and t[3][1] is None
+        return TRUE if (same if t[1] == "is" else not same) else FALSE
+    if t and t[0] == "ite" and len(t) == 4 and t[1] in (TRUE, FALSE):
+        return t[2] if t[1] == TRUE else t[3]
     if t and t[0] == "bin" and t[1] == "+" and t[2][0] == "const" and t[3][0] == "const" and isinstance(t[2][1], str) \
             and isinstance(t[3][1], str):
         return ("const", t[2][1] + t[3][1])
